@@ -86,6 +86,18 @@ CLAIMED = {
         note="Trusted: Execute.tla, gqlmini renderers; one action per quiescent point; a single outstanding pull.",
         technique="TLC model checking of Subscribe.tla + TLC evaluation of recorded subscription runs against SubscribeV.tla/Execute.tla",
     ),
+    "C08": dict(
+        category="model_checking",
+        text=("String fidelity is decided by the specification's lexer (Lexical.tla, evaluated by TLC through StringV.tla): every raw block-string body and "
+              "every programmatic value over a 12-symbol block alphabet (LF CR SP TAB quote backslash a FF NEL LS VT FS) up to length 4 (quick) / 5 (thorough) "
+              "and every value over a 14-symbol quoted alphabet up to length 3/4 - the parsed value must be the specification's value, the printed literal must "
+              "denote the original value, is_printable_as_block_string(v) must imply Representable(v). Full-grammar documents from a grammar-directed generator "
+              "(incl. experimental syntaxes): parsed AST = the generator's expected tree, print->parse identity, print fixed point, the same for trees built from "
+              "node classes, and TLC checks that the string tokens of each printed document carry exactly the tree's string values in order."),
+        design_ref="DESIGN.md 5/C08",
+        note="Round-trip and fixed-point laws are metamorphic (evaluated on the real parser/printer); the TLA+ lexer is the independent oracle for string values. A programmatic block node whose value no block string denotes is outside the statement.",
+        technique="bounded-exhaustive enumeration of string values + TLC evaluation of printed literals/documents against Lexical.tla",
+    ),
     "C09": dict(
         category="model_checking",
         text=("TLC checks the grammar theorems (spans disjoint/ordered with ignored gaps, filler insertion at every boundary invisible, Strip laws) on every string "
